@@ -61,3 +61,12 @@ func VerifFamilyBusy(f Family) bool {
 	fam := f.(*family)
 	return fam.compacting.Load() || fam.rolluping.Load()
 }
+
+// VerifPendingRollupFiles returns how many (file, target interval) rollup entries the family's current version still lists.
+func VerifPendingRollupFiles(f Family) int {
+	n := 0
+	for _, intervals := range f.getFamilyVersion().GetLiveRollupFiles() {
+		n += len(intervals)
+	}
+	return n
+}
